@@ -9,12 +9,13 @@
     fuel_irrelevant_impl fuel_irrelevant_doc impl_eq_doc no_output_when_doc_fails no_output_when_impl_fails
     if_false_removes if_true_transparent for_eq_unrolled choose_first_match_only
     attr_form_eq_elem_form_partial replace_eq_content_strip_partial
-    extract_flat_eq_tree construction_pipeline_eq_compile
+    extract_flat_eq_tree construction_pipeline_eq_compile text_parse_eq_tree text_pipeline_eq_compile
 -/
 import Genshi.Lemmas.TmplSimMain
 import Genshi.Lemmas.TmplSimRev
 import Genshi.Lemmas.TmplEquiv
 import Genshi.Lemmas.TmplExtract
+import Genshi.Lemmas.TmplText
 namespace Genshi.Props.C04
 open Genshi Genshi.Tmpl
 
@@ -48,6 +49,17 @@ theorem extract_flat_eq_tree (ns : List TNode) : extractFlat (toStreams ns) = ex
     which all run-time theorems below speak. -/
 theorem construction_pipeline_eq_compile (ns : List TNode) : compileFlat ns = compileNodes ns :=
   compileFlat_eq_compile ns
+
+/-- Text templates (both syntaxes, after the scanners): the token loop with the depth-keyed
+    `dirmap` nests the blocks exactly like the template tree, i.e. like the markup form of the
+    same directives written as directive elements. -/
+theorem text_parse_eq_tree (ns : List TNode) (h : textNodes ns = true) :
+    textParse (toTokss ns) = extractTrees ns :=
+  textParse_eq_tree ns h
+
+theorem text_pipeline_eq_compile (ns : List TNode) (h : textNodes ns = true) :
+    compileText ns = compileNodes ns :=
+  compileText_eq_compile ns h
 
 /-! ### scoping: frames and choice stack -/
 
@@ -371,6 +383,9 @@ example : implRender 100 ex1 ex1data =
 
 example : docRender 100 ex1 ex1data = implRender 100 ex1 ex1data := by rfl
 example : wfNodes ex1 = true := by decide
+
+example : textNodes [.delem (.for_ ['x'] (.var ['x', 's'])) [.text ['a'], .delem (.if_ (.var ['x'])) [.expr (.pure (.var ['x']))]]] = true := by
+  decide
 
 /-- the hypotheses of the equivalence theorems are satisfiable on non-trivial inputs -/
 private def exPre : List Dir := [.for_ ['x'] (.var ['x', 's']), .if_ (.var ['x']), .with_ [(['y'], .var ['x'])]]
